@@ -8,7 +8,10 @@
 (A)  Trace_FailClosed: every strict prefix and 28 hostile overwrites at every offset of real encodings, every code at every
      position holding a type tag by construction, every accessor of every returned object (call sequences), and the
      reads over a connection under every way the peer can end the stream -- real decoders in a child process under an
-     address-space limit."""
+     address-space limit.  The encodings: random fills of every type PLUS the layout variants of one populated object per
+     type (one field at a time over the values that select a layout: version/flag bytes 0..255, bools, 0/1/2/3/-1, empty/
+     non-empty groups; UDP packs under every version next to a threshold).  The valid encoding is the writer's WHOLE
+     output: its decoder must consume all of it and every strict prefix of it must fail."""
 
 import json, os
 import vf
@@ -81,5 +84,7 @@ def body(run):
         "type-tag positions are known by construction only: the object's own tag, packs nested in containers the generator put together, and values nested under field paths for which 5 independent instances all show the value's tagged encoding in the parent's bytes",
         "the registries of type codes (value, step, pack, service) are constants of the trace spec taken from the format",
         "reads over a connection: truncation and fault points only (plus hostile lengths for the limited frame read); the allocation of unlimited reads over a connection is by design not bounded by the input",
+        "layout variants are single-field changes of a randomly populated object, one kept per distinct length of the writer's output (a variant that changes the layout but not the length, or that needs two fields changed together, is left to the random fills)",
+        "whole-encoding rule: every item is the complete output of the writer paired with the decoder, for one object of a self-delimiting format; the only exemption is UdpRelayPack, whose length is carried by the datagram header",
         "hostile inputs are overwrites of 28 length/count/tag patterns at every offset < 400 of each valid encoding, not all byte strings",
     ]
